@@ -15,6 +15,7 @@
 #include <cfloat>
 #include <climits>
 #include <random>
+#include <set>
 
 #include "rkcommon/math/rkmath.h"
 #include "rkcommon/math/vec.h"
@@ -332,7 +333,9 @@ static void divru_case(const Div2<T> &c, pbt::Ctx &ctx)
 {
   using L = std::numeric_limits<T>;
   const __int128 a = c.a, b = c.b, mx = L::max();
-  if (a < 0 || b <= 0 || a > mx - b) {
+  // types narrower than int: a+b-1 is evaluated in int (integer promotion), the statement holds on all of a>=0, b>0
+  const bool narrow = sizeof(T) < sizeof(int);
+  if (a < 0 || b <= 0 || (!narrow && a > mx - b)) {
     ctx.label("out-of-domain(not asserted)");
     return;
   }
@@ -381,7 +384,7 @@ static rc::Gen<Div2<T>> genDiv()
       [mx](const std::tuple<T, int, uint64_t, uint64_t> &t) {
         const U b = (U)std::get<0>(t);
         const U rnd = ((U)std::get<2>(t) << 32) | std::get<3>(t);
-        const U top = mx - b;              // largest admissible a
+        const U top = sizeof(T) < sizeof(int) ? mx : mx - b;  // largest admissible a (see divru_case)
         const U kmax = top / b;            // largest k with k*b <= top
         const U k = kmax ? 1 + rnd % kmax : 0;
         U a;
@@ -1002,6 +1005,102 @@ static rc::Gen<UrdCase<T>> genUrdTiny()
         return c;
       });
 }
+// One distribution OBJECT used with several engines in turn (operator() is a template on the engine): a distribution
+// holds only its range, so every draw must equal the draw of a fresh object given an equal engine, and stay in range.
+template <class T>
+struct SharedCase
+{
+  T lo = 0, hi = 1;
+  std::vector<std::tuple<int, uint32_t, int>> segs;  // (engine, seed, draws)
+  auto tie()
+  {
+    return std::tie(lo, hi, segs);
+  }
+};
+template <class T, class G>
+static void shared_segment(ru::uniform_real_distribution<T> &d, G g, int n, std::vector<T> &out)
+{
+  for (int i = 0; i < n; ++i)
+    out.push_back(d(g));
+}
+template <class T>
+static void shared_case(const SharedCase<T> &c, pbt::Ctx &ctx)
+{
+  const T big = std::numeric_limits<T>::max() / 4;
+  if (!std::isfinite(c.lo) || !std::isfinite(c.hi) || std::fabs(c.lo) > big || std::fabs(c.hi) > big || c.segs.empty()) {
+    ctx.label("out-of-domain(not asserted)");
+    return;
+  }
+  ru::uniform_real_distribution<T> d(c.lo, c.hi);
+  std::set<int> engines;
+  int segNo = 0;
+  for (auto &sg : c.segs) {
+    const int engine = ((std::get<0>(sg) % N_ENGINES) + N_ENGINES) % N_ENGINES;
+    const uint32_t seed = std::get<1>(sg);
+    const int n = std::max(1, std::min(32, std::get<2>(sg)));
+    engines.insert(ENGINE_BITS[engine] * 100 + engine);
+    std::vector<T> got;
+    switch (engine) {
+    case 0:
+      shared_segment<T>(d, pcg32(seed), n, got);
+      break;
+    case 1:
+      shared_segment<T>(d, std::mt19937(seed), n, got);
+      break;
+    case 2:
+      shared_segment<T>(d, std::minstd_rand(seed), n, got);
+      break;
+    case 3:
+      shared_segment<T>(d, std::mt19937_64(seed), n, got);
+      break;
+    case 4:
+      shared_segment<T>(d, EdgeEngine<uint32_t, 0, 0xffffffffull>(seed), n, got);
+      break;
+    case 5:
+      shared_segment<T>(d, EdgeEngine<unsigned long, 0, 0xffffffffull>(seed), n, got);
+      break;
+    case 6:
+      shared_segment<T>(d, EdgeEngine<uint32_t, 1, 2147483646ull>(seed), n, got);
+      break;
+    default:
+      shared_segment<T>(d, EdgeEngine<uint64_t, 0, 0xffffffffffffffffull>(seed), n, got);
+      break;
+    }
+    const std::vector<T> want = urd_run<T>(engine, seed, c.lo, c.hi, n);
+    for (int i = 0; i < n; ++i)
+      PBT_ASSERT_MSG(b_of(got[i]) == b_of(want[i]),
+          C07_BIN << ": uniform_real_distribution<" << (sizeof(T) == 4 ? "float" : "double") << ">(" << hx(c.lo) << ", " << hx(c.hi) << "): draw #" << i << " of segment #"
+                  << segNo << " (" << ENGINE_NAMES[engine] << "(" << seed << ")) on an object already used with other engines = " << hx(got[i])
+                  << ", a fresh object with an equal engine gives " << hx(want[i]) << " (not reproducible from the seed)");
+    ++segNo;
+  }
+  int widths = 0;
+  {
+    std::set<int> w;
+    for (int e : engines)
+      w.insert(e / 100);
+    widths = (int)w.size();
+  }
+  if (widths >= 2)
+    ctx.label("engines of different output ranges on one object");
+  ctx.nt(c.lo != c.hi && widths >= 2);
+}
+template <class T>
+static rc::Gen<SharedCase<T>> genShared(rc::Gen<T> g)
+{
+  const T big = std::numeric_limits<T>::max() / 4;
+  auto seg = rc::gen::tuple(pbt::range<int>(0, N_ENGINES - 1), genI<uint32_t>(), pbt::range<int>(1, 8));
+  return rc::gen::map(rc::gen::tuple(g, g, rc::gen::resize(4, rc::gen::container<std::vector<std::tuple<int, uint32_t, int>>>(seg)), seg),
+      [big](const std::tuple<T, T, std::vector<std::tuple<int, uint32_t, int>>, std::tuple<int, uint32_t, int>> &t) {
+        SharedCase<T> c;
+        auto cl = [big](T v) { return std::fabs(v) > big ? std::copysign(big, v) : v; };
+        c.lo = cl(std::get<0>(t));
+        c.hi = cl(std::get<1>(t));
+        c.segs = std::get<2>(t);
+        c.segs.push_back(std::get<3>(t));
+        return c;
+      });
+}
 #endif  // C07_PART == 3
 
 #if C07_PART == 2
@@ -1088,6 +1187,7 @@ static void register_properties()
   reg_div<int16_t>("divRoundUp_i16", 3000);
   reg_div<uint16_t>("divRoundUp_u16", 3000);
   reg_div<uint8_t>("divRoundUp_u8", 3000);
+  reg_div<int8_t>("divRoundUp_i8", 2000);
 #elif C07_PART == 2
   auto f3 = [](bool inf) {
     return rc::gen::map(rc::gen::tuple(genF(inf), genF(inf), genF(inf)), [](const std::tuple<float, float, float> &t) {
@@ -1142,6 +1242,8 @@ static void register_properties()
   pbt::property<UrdCase<float>>("uniform_real_distribution_float", 8000, genUrd<float>(genF(false)), urd_case<float, false>);
   pbt::property<UrdCase<double>>("uniform_real_distribution_double", 8000, genUrd<double>(genD(false)), urd_case<double, false>);
   // expected to FAIL on the unchanged tree (genuine defect, notes/C07.md "Defects"): kept, not weakened
+  pbt::property<SharedCase<float>>("uniform_real_distribution_float_shared_object", 3000, genShared<float>(genF(false)), shared_case<float>);
+  pbt::property<SharedCase<double>>("uniform_real_distribution_double_shared_object", 3000, genShared<double>(genD(false)), shared_case<double>);
   pbt::property<UrdCase<float>>("uniform_real_distribution_float_tiny_range", 3000, genUrdTiny<float>(), urd_case<float, true>);
   pbt::property<UrdCase<double>>("uniform_real_distribution_double_tiny_range", 3000, genUrdTiny<double>(), urd_case<double, true>);
 #endif
